@@ -69,6 +69,9 @@ def predecessor(cname):
 
 
 def execute(ch, cname):
+    restarted = cname.endswith(" restarted")
+    if restarted:
+        cname = cname[:-len(" restarted")]
     if " after " in cname:
         cname, before = cname.split(" after ")
         predecessor(before)
@@ -110,6 +113,26 @@ def execute(ch, cname):
                 warned=handler.processed - warned))
             return ret
         sg.update_devices = update_devices
+        if restarted:
+            # the same group object ran before: two cycles, then it was
+            # stopped (running = False) and is started again
+            task0 = sg.start()
+            for _ in range(400):
+                w.loop.run_until_idle()
+                if task0.done():
+                    break
+                if len(obs["updates"]) >= 2:
+                    sg.running = False
+                if w.master.transport.inflight:
+                    w.master.deliver(0)
+                elif not w.loop.advance():
+                    break
+            if not task0.done() or task0.exception():
+                raise core.Internal("the first run of the group did not end "
+                                    "by itself: %r" % (task0,))
+            del sg.running
+            obs["updates"].clear()
+            dev.seen.clear()
         task = sg.start()
         index = sg.packet_index
 
@@ -169,6 +192,8 @@ def execute(ch, cname):
             w.loop.call_soon(w.ec.datagram_received, bytes(back), None)
             return True
         steps = 0
+        outs = [l for l in links if l[2] is OUT]
+        obs["late_sets"] = []
         while len(obs["updates"]) < CYCLES and not task.done() and steps < 400:
             steps += 1
             w.loop.run_until_idle()
@@ -178,8 +203,19 @@ def execute(ch, cname):
                 continue
             if w.master.transport.inflight:
                 w.master.deliver(0)
-            elif not w.loop.advance():
-                break
+            else:
+                # the pause between two cycles: somebody sets an output of
+                # the device from outside update() (a set point, a command)
+                n = len(obs["updates"])
+                if outs and n and not obs["late_sets"] and \
+                        not w.master.transport.inflight and \
+                        ch.choose(2, "late-set"):
+                    name = outs[0][0]
+                    value = 0x7e00 + n
+                    setattr(dev, name, value)
+                    obs["late_sets"].append((n, name, value, len(entries)))
+                if not w.loop.advance():
+                    break
         # the frame following the last update
         for _ in range(50):
             w.loop.run_until_idle()
@@ -254,6 +290,9 @@ def judge(cname, ch, obs, res):
             if not is_out:
                 continue
             exp = u["outputs"][name]
+            for ln, lname, lvalue, _ in obs.get("late_sets", []):
+                if ln == n and lname == name:
+                    exp = lvalue    # set again after the update, see below
             got = struct.unpack_from("<H", e["outmem"][ti], pos)[0]
             if got != exp:
                 bad({name: hex(exp)}, hex(got),
@@ -261,6 +300,16 @@ def judge(cname, ch, obs, res):
         if any(e["sent_wkc"]):
             bad("all working counters 0 in a resent frame", e["sent_wkc"],
                 "working counter not cleared before resending")
+    # an output set between two cycles is in the first frame sent afterwards
+    for n, name, value, nsent in obs.get("late_sets", []):
+        later = obs["sent"][nsent:]
+        if not later:
+            continue
+        ti, pos = [(l[1], l[3]) for l in obs["links"] if l[0] == name][0]
+        got = struct.unpack_from("<H", later[0]["outmem"][ti], pos)[0]
+        if got != value:
+            bad({name: hex(value)}, hex(got),
+                "output set between two cycles is not in the next frame")
 
 
 def work(item, res):
@@ -292,6 +341,10 @@ def run(ctx):
     # the same groups when another group of a different layout was laid
     # out in this process before (one deviation less: the history is one)
     names = list(CONFIGS)
+    for c in names:
+        # the same group object stopped and started again
+        items.append((c + " restarted", bound - 1,
+                      60000 if ctx.quick else 600000))
     for i, c in enumerate(names):
         for k in (1, 3) if ctx.quick else range(1, len(names)):
             items.append((f"{c} after {names[(i + k) % len(names)]}",
